@@ -3,15 +3,15 @@ import pipeline
 
 LEAN_MODULES = ['PomerolModel.Properties.C19']
 GENERATED = ['dm']
-THEOREMS = ["Pomerol.Properties.C19." + t for t in ['retain_rule', 'nothing_discarded_at_zero', 'green_function_bound', 'average_bound', 'row_norm_bound']]
+THEOREMS = ["Pomerol.Properties.C19." + t for t in ['retain_rule', 'nothing_discarded_at_zero', 'green_function_bound', 'average_bound', 'row_norm_bound', 'stripe_rule', 'susceptibility_bound', 'susceptibility_truncation_error', 'susceptibility_bound_dim', 'weight_difference_quotient', 'two_particle_bound_partial', 'two_particle_bound_matsubara']]
 RULE = 'a case = random model, beta up to 60, eps in {0,1e-12,1e-6,1e-3,1e-2,0.2}; retained flags vs weights; G, chi_AB, chi4 and averages recomputed after truncation and compared with the untruncated values against the proven bounds; non-trivial = distinct case in which at least one block is discarded'
 TRUSTED = ["harness/pipe.cpp drives the real classes along the documented workflow; case-file protocol with hex doubles",
            "numeric oracle (lean/Driver/Numeric*.lean): IEEE double arithmetic of compiled Lean, full-Fock-space sums",
            "Eigen's SelfAdjointEigenSolver is not verified: its output is certified on every case (residual, orthonormality)"]
 ASSUMPTIONS = ["exact real/complex arithmetic in the theorems; tolerance tests idealised unless stated",
                "numerical comparison tolerance: proven budget + 1e-9 relative rounding slack"]
-LEVEL_TEXT = 'Proof: a block is retained iff one of its weights exceeds eps (extracted test), eps=0 discards nothing (weights > 0), rows of an operator obeying the CAR have norm <= 1, hence the Lehmann terms skipped when both blocks are discarded change G by at most 2 eps dim/|Im z| and averages by eps dim M. Tie: retained flags exact; observable differences against the bounds.'
-LEVEL_NOTE = 'Trusted: as C01. The bounds for chi_AB and chi4 are checked numerically (analogous argument), only G and averages are theorems.'
+LEVEL_TEXT = 'Proof: a block is retained iff one of its weights exceeds eps (extracted test), eps=0 discards nothing (weights > 0), rows of an operator obeying the CAR have norm <= 1, hence the Lehmann terms skipped when both blocks are discarded change G by at most 2 eps dim/|Im z|, averages by eps dim M, chi_AB by 2 eps W/|Omega_k| (k != 0) resp. beta eps W (k = 0, via the mean-value inequality for Gibbs weights), chi4 at Matsubara frequencies by (4+2pi) eps beta^3/pi^3 W4 (all resonance classes). Stripe rule: truncated sum = full sum - stripes with all blocks discarded. Tie: retained flags exact; after truncation every value is compared (i) with the full-space sum over exactly the stripes containing a retained block and (ii) with the untruncated value against the proven bounds.'
+LEVEL_NOTE = 'Trusted: as C01. Bounds for G, averages, chi_AB (all bosonic frequencies incl. the static one) and chi4 at Matsubara frequencies (all resonance classes, six orderings) are theorems and are the budgets the oracle uses; chi4 at general complex frequencies only in the non-resonant regime (…_partial). The stripe rule (a stripe is skipped only when all its blocks are discarded) is a theorem-level identity and an exact oracle.'
 TECHNIQUE = 'Lean 4/Mathlib norm bounds + before/after differential comparison'
 DESIGN_REF = "DESIGN.md section 6, C19"
 
